@@ -64,6 +64,8 @@ int run_ret_cb(mixed el, string script) { run(script); return 1; }
 int cmp_cb(mixed x, mixed y) { if (cb_script) { string t; t = cb_script; cb_script = 0; run(t); } return x > y; }
 mixed fp_target(string script) { run(script); return 7; }
 void ed_exit() { rec("EDEXIT " + me()); }
+int ed_write_calls;
+int ed_write(string fname, int after) { rec("EDWRITE " + me() + " " + after); hook("edw"); return 1; }
 
 int cmd_x(string arg) { rec("X " + me()); hook("x"); return 1; }
 
@@ -581,6 +583,7 @@ void do_op(string op) {
       case "dumpallobj": e = catch(dumpallobj(p1)); break;
       case "dump_prog": e = catch(dump_prog(this_object(), 0, p1)); break;
       case "ed": e = catch(ed(p1, "ed_exit")); break;
+      case "edw": e = catch(ed(p1, "ed_write", "ed_exit")); break;   // with a write callback that fails on the second call
       default: rec("BADFE " + a[2]);
       }
       rec("FEDONE " + a[1] + " " + (e ? "err" : (stringp(r) ? "str" : (arrayp(r) ? "arr" : (objectp(r) ? "ob" : "" + r)))));
